@@ -48,8 +48,9 @@ def generate(ctx):
 # Props/C08Gen.lean: the definitions GENERATED from the current python source (Gen/C08Span.lean) equal the hand model;
 # Props/C08Ops.lean: set-theoretic meaning of the span predicates and FeatureMap + * / without_gaps
 PROPS_FILES = ["CogentModel/Props/C08.lean", "CogentModel/Props/C08FMap.lean", "CogentModel/Props/C08Ops.lean",
-               "CogentModel/Props/C08Gen.lean"]
-LEAN_TARGETS = ["CogentModel.Props.C08", "CogentModel.Props.C08FMap", "CogentModel.Props.C08Ops", "CogentModel.Props.C08Gen"]
+               "CogentModel/Props/C08Gen.lean", "CogentModel/Props/C08Loops.lean"]
+LEAN_TARGETS = ["CogentModel.Props.C08", "CogentModel.Props.C08FMap", "CogentModel.Props.C08Ops", "CogentModel.Props.C08Gen",
+                "CogentModel.Props.C08Loops"]
 DRIVER = "drv_c08"
 TRUSTED = [
     "translator/c08_span2lean.py (python ast -> Lean for the pure span algebra: _norm_index, _norm_slice, span_and_span, Span / "
